@@ -897,6 +897,94 @@ def hole_spans(template):
     return out
 
 
+def hole_expr(key, ex, fm):
+    """the expression bound to a hole; an implicit capture `{x}` becomes a path node located at its macro"""
+    if ex is None and key[0] == "name" and fm is not None:
+        return {"k": "path", "path": key[1], "sp": fm.node["sp"], "$implicit": True}
+    return ex
+
+
+def template_holes(fm):
+    """[(key, expr, offset)] of a Fmt's template"""
+    exprs = {off: ex for kind, key, ex, off in fm.hole_exprs()}
+    return [(key, hole_expr(key, exprs.get(s), fm), s) for (s, e_, key) in hole_spans(fm.template)]
+
+
+def single_template(f, e, depth=0):
+    """(template text, holes) when expression `e` is, through value-preserving wrappers and single-valued `let`s,
+    one string literal / format! / `a + b` concatenation; None otherwise.  A name that is first built in a local and
+    then printed is thereby judged exactly like the same name built inline."""
+    if e is None or depth > 6:
+        return None
+    k = e.get("k")
+    if k in ("ref", "try"):
+        return single_template(f, e["e"], depth)
+    if k == "unary" and e["op"] in ("*", "&"):
+        return single_template(f, e["e"], depth)
+    if k == "mcall" and e["method"] in PASS and not e["args"]:
+        return single_template(f, e["recv"], depth)
+    if k == "call" and e["func"].get("k") == "path" and len(e["args"]) == 1:
+        p = e["func"]["path"]
+        if p in PASS_CALLS or "::".join(p.split("::")[-2:]) in PASS_CALLS:
+            return single_template(f, e["args"][0], depth)
+        return None
+    if k == "str":
+        return e["v"].replace("{", "{{").replace("}", "}}"), []
+    if k == "macro" and synq.short(e["name"]) == "format" and e.get("args"):
+        fm = synq.Fmt(e)
+        if fm.template is None or '"' in fm.template or "\n" in fm.template:
+            return None
+        return inline_holes(f, fm.template, template_holes(fm), depth + 1)
+    if k == "binary" and e["op"] == "+":
+        parts = flatten_plus(e)
+        subs = [single_template(f, p, depth + 1) for p in parts]
+        if subs[0] is None:
+            return None
+        text, holes = "", []
+        for p, sub in zip(parts, subs):
+            if sub is None:
+                holes.append((("pos", len(holes)), p, len(text)))
+                text += "{}"
+            else:
+                holes += [(k_, e_, o + len(text)) for k_, e_, o in sub[1]]
+                text += sub[0]
+        return text, holes
+    if k == "path" and "::" not in e["path"] and not e["path"][:1].isupper():
+        b = lookup(f.node, e["path"], e)
+        if not b or b[0] != "let":
+            return None
+        st = b[1]
+        if any(n.get("k") == "p_ident" and n.get("mut") for n in synq.walk(st["pat"])):
+            return None   # may be appended to / reassigned: left to the origin analysis
+        pth = pat_path(st["pat"], e["path"])
+        if pth is None:
+            return None
+        vals = tail_values(st.get("init"), pth)
+        if len(vals) != 1 or vals[0] is None or vals[0].get("k") == "$component":
+            return None
+        return single_template(f, vals[0], depth + 1)
+    return None
+
+
+def inline_holes(f, text, holes, depth=0):
+    """Substitute every hole whose value is a single template (see single_template) by that template."""
+    out_text, out_holes, pos = "", [], 0
+    for key, ex, off in sorted(holes, key=lambda h: h[2]):
+        end = text.index("}", off) + 1
+        out_text += text[pos:off]
+        sub = None
+        if ex is not None and ":" not in text[off:end] and ex.get("k") == "path":
+            sub = single_template(f, ex, depth)
+        if sub is None:
+            out_holes.append((key, ex, len(out_text)))
+            out_text += text[off:end]
+        else:
+            out_holes += [(k_, e_, o + len(out_text)) for k_, e_, o in sub[1]]
+            out_text += sub[0]
+        pos = end
+    return out_text + text[pos:], out_holes
+
+
 def segments_of_string(be, f, rel, strnode, fm):
     """Name segments inside one string literal (fm = its Fmt when the string is a format template)."""
     t = strnode["v"]
@@ -910,8 +998,13 @@ def segments_of_string(be, f, rel, strnode, fm):
         hs = []
         for (s, e_, key) in spans:
             if a <= s and e_ <= b:
-                hs.append((key, exprs.get(s), s - a))
-        return Seg(be, f, rel, strnode, t[a:b], role, hs, fm, a)
+                hs.append((key, hole_expr(key, exprs.get(s), fm), s - a))
+        text = t[a:b]
+        if f is not None and hs:
+            text, hs = inline_holes(f, text, hs)
+        sg = Seg(be, f, rel, strnode, text, role, hs, fm, a)
+        sg.raw_len = b - a
+        return sg
 
     out = []
     taken = []
@@ -985,9 +1078,7 @@ def hole_org(ev, seg, key, ex):
     if seg.f is None:
         return Org.unknown("item-level string")
     if ex is None:
-        if key[0] != "name":
-            return Org.unknown("missing positional argument")
-        ex = {"k": "path", "path": key[1], "sp": seg.macro.node["sp"]}
+        return Org.unknown("missing argument")
     return ev.org(seg.f, ex)
 
 
@@ -1076,7 +1167,7 @@ def dead_declaration(seg):
     """The symbol declared right after an import attribute, when no other text of the crate mentions it.
     -> symbol text, or None when the symbol is referenced / cannot be identified."""
     t = seg.node["v"]
-    after = t[seg.start + len(seg.text):]
+    after = t[seg.start + getattr(seg, "raw_len", len(seg.text)):]
     m = re.search(r"([A-Za-z_{][A-Za-z0-9_{}]*)\s*\(", after)
     if not m:
         return None
@@ -1203,8 +1294,8 @@ def self_ends_with_hash(ev, seg, hole):
         return all(x.endswith("#") or x == "" for x in o.lits)
     # a format! whose template ends with '#'
     e = ex
-    if e is None and key[0] == "name" and seg.f is not None:
-        b = lookup(seg.f.node, key[1], seg.macro.node)
+    if e is not None and e.get("k") == "path" and key[0] == "name" and seg.f is not None:
+        b = lookup(seg.f.node, key[1], e)
         if b and b[0] == "let":
             for n in synq.walk(b[1].get("init") or {}):
                 if n.get("k") == "macro" and synq.short(n["name"]) == "format" and n.get("args") and \
@@ -1287,7 +1378,10 @@ def pushes_hash(f, key, seg):
     """`res.push('#')` inside the initialiser of the variable bound to the hole (C++ module_prefix)."""
     if f is None or key[0] != "name":
         return False
-    b = lookup(f.node, key[1], seg.macro.node)
+    ex = next((e for k_, e, o in seg.holes if k_ == key and e is not None), None)
+    if ex is None:
+        return False
+    b = lookup(f.node, key[1], ex)
     if not b or b[0] != "let":
         return False
     for n in synq.walk(b[1].get("init") or {}):
